@@ -120,8 +120,9 @@ func DigestPowershell(r io.Reader, style PsSigStyle, hash crypto.Hash) (*PsDiges
 			if isUtf16 {
 				eol = 4
 			}
-			if len(saved) < eol {
-				// signature block at the very start, or not preceded by a line break
+			if len(saved) < eol || saved[len(saved)-eol:] != first[len(first)-eol:] {
+				// signature block at the very start, or not preceded by a CRLF line
+				// break: cutting eol bytes off would remove script text
 				return nil, errors.New("malformed powershell signature")
 			}
 			saved = saved[:len(saved)-eol]
